@@ -382,10 +382,13 @@ func (p *wat2wasmWorker) buildNameSection() error {
 			}
 		}
 		for j, local := range fn.Locals {
-			localNameMap = append(localNameMap, &wasm.NameAssoc{
-				Index: wasm.Index(j),
-				Name:  local.Name,
-			})
+			if local.Name != "" {
+				// locals are numbered after the parameters
+				localNameMap = append(localNameMap, &wasm.NameAssoc{
+					Index: wasm.Index(len(fn.Type.Params) + j),
+					Name:  local.Name,
+				})
+			}
 		}
 
 		funcNames = append(funcNames, &wasm.NameAssoc{
